@@ -20,13 +20,14 @@ import (
 
 const c17Marker = "OUTSIDE-MARKER-7f3a9c"
 
-var c17Tokens = []string{"..", ".", "", "sub", "a.txt", "b.css", "SECRET.txt", "rootx", "%2e%2e", "..%2f", "%2f", `\`, `%5c..`, "%00", "a.txt.", ".../", "s.css", "..%5c", "c.js", "e.scss", "m.mjs", "acss", "x.css.bak"}
+var c17Tokens = []string{"..", ".", "", "sub", "a.txt", "b.css", "SECRET.txt", "rootx", "%2e%2e", "..%2f", "%2f", `\`, `%5c..`, "%00", "a.txt.", ".../", "s.css", "..%5c", "c.js", "e.scss", "m.mjs", "acss", "x.css.bak", "dir.js", "inner.md"}
 
 type c17Case struct {
 	Handler string `json:"handler"` // StaticDir StaticFS StaticFiles StaticFile
 	Prefix  string `json:"prefix"`
 	Encoded bool   `json:"use_encoded_path"`
 	Global  bool   `json:"global_var_named_file,omitempty"` // rux.SetGlobalVar("file", ".+") is in effect (process-global)
+	Cache   int    `json:"route_cache,omitempty"`           // >0: caching with that capacity and a second mount of ANOTHER root; requests alternate between the mounts
 	First   int    `json:"first_token"`
 	Depth   int    `json:"max_tokens"`
 }
@@ -62,7 +63,7 @@ func c17Setup() {
 				panic(err)
 			}
 		}
-		for _, f := range []string{"root/a.txt", "root/sub/b.css", "root/sub/c.js", "root/sub/d.md", "root/s.css", "root/e.scss", "root/sub/m.mjs", "root/acss", "root/x.css.bak"} {
+		for _, f := range []string{"root/a.txt", "root/sub/b.css", "root/sub/c.js", "root/sub/d.md", "root/s.css", "root/e.scss", "root/sub/m.mjs", "root/acss", "root/x.css.bak", "root/dir.js/inner.md", "root/dir.js/index.html"} {
 			c := "INSIDE:" + f
 			w(f, c)
 			c17Inside[c] = true
@@ -92,6 +93,10 @@ func c17Gen(tier string, emit func(c17Case)) {
 			for _, enc := range []bool{false, true} {
 				for f := range c17Tokens {
 					emit(c17Case{Handler: h, Prefix: p, Encoded: enc, First: f, Depth: depth})
+					if (h == "StaticFiles" || h == "StaticDir") && !enc && f%4 == 1 {
+						// with the route cache on and a second static mount whose root is the sibling directory
+						emit(c17Case{Handler: h, Prefix: p, Encoded: enc, First: f, Depth: 2, Cache: 1 + f%2})
+					}
 					if (h == "StaticFiles" || h == "StaticDir") && !enc && f%3 == 0 {
 						// a global path variable that happens to carry the name the static handlers use internally
 						emit(c17Case{Handler: h, Prefix: p, Encoded: enc, First: f, Depth: depth, Global: true})
@@ -119,7 +124,18 @@ func c17Run(c c17Case, st *fw.Stats) []fw.Viol {
 	if c.Encoded {
 		opts = append(opts, rux.UseEncodedPath)
 	}
+	if c.Cache > 0 {
+		opts = append(opts, rux.CachingWithNum(uint16(c.Cache)))
+	}
 	r := rux.New(opts...)
+	if c.Cache > 0 {
+		// a legitimate second mount: /other serves the sibling directory (whose files carry the outside marker)
+		if c.Handler == "StaticFiles" {
+			r.StaticFiles("/other", filepath.Join(c17Base, "rootx"), "css|js|txt")
+		} else {
+			r.StaticDir("/other", filepath.Join(c17Base, "rootx"))
+		}
+	}
 	switch c.Handler {
 	case "StaticDir":
 		r.StaticDir(c.Prefix, root)
@@ -130,8 +146,15 @@ func c17Run(c c17Case, st *fw.Stats) []fw.Viol {
 	case "StaticFile":
 		r.StaticFile(c.Prefix, filepath.Join(root, "a.txt"))
 	}
-	desc := fmt.Sprintf("%s(prefix %q, root <sandbox>/root, useEncodedPath=%v, global var file=%v)", c.Handler, c.Prefix, c.Encoded, c.Global)
-	probe := func(raw string) {
+	desc := fmt.Sprintf("%s(prefix %q, root <sandbox>/root, useEncodedPath=%v, global var file=%v, cache=%d)", c.Handler, c.Prefix, c.Encoded, c.Global, c.Cache)
+	var probe func(raw string)
+	serveOther := func(p string) {
+		w := httptest.NewRecorder()
+		_ = try(func() {
+			r.ServeHTTP(w, &http.Request{Method: "GET", URL: &url.URL{Path: p}, Header: http.Header{}, Host: "x"})
+		})
+	}
+	probe1 := func(raw string) {
 		dec, err := url.PathUnescape(raw)
 		if err != nil {
 			return
@@ -163,6 +186,12 @@ func c17Run(c c17Case, st *fw.Stats) []fw.Viol {
 			}
 			switch c.Handler {
 			case "StaticFiles":
+				if !listing && c17Inside[body] && !strings.HasSuffix(body, ".css") && !strings.HasSuffix(body, ".js") {
+					add("static:files-other-file", fmt.Sprintf("%s: GET %q answered 200 with the bytes of a file that has no allowed extension: %q", desc, dec, trunc(body)))
+				}
+				if listing {
+					add("static:files-listing", fmt.Sprintf("%s: GET %q answered 200 with a directory listing / index page: %q", desc, dec, trunc(body)))
+				}
 				// (trailing slashes and surrounding white space are insignificant to the router: C11)
 				if nd := refmodel.Norm(dec, false); !strings.HasSuffix(nd, ".css") && !strings.HasSuffix(nd, ".js") {
 					add("static:extension", fmt.Sprintf("%s: GET %q answered 200 although the path does not end in an allowed extension", desc, dec))
@@ -178,6 +207,17 @@ func c17Run(c c17Case, st *fw.Stats) []fw.Viol {
 		}
 		if w.Code == 200 {
 			st.Inc("status_200", 1)
+		}
+	}
+	probe = func(raw string) {
+		probe1(raw)
+		if c.Cache > 0 {
+			// fill the cache from the other mount, then ask again: the answer must still come from this mount's root
+			serveOther("/other/s.css")
+			serveOther("/other/a.txt")
+			probe1(raw)
+			serveOther("/other/s.css")
+			probe1(raw)
 		}
 	}
 	var rec func(cur string, n int)
